@@ -347,6 +347,60 @@ pub fn run(tier: Tier, replay: Option<String>) -> i32 {
             }
             fields.push(Field { name, sig, offset: te.offset });
         }
+        // ---- (a2) indexed custom accessors: every index must address its own stride inside the table entry
+        for name in k.indexed {
+            let tname = name.to_uppercase();
+            let Some(te) = table.get(&tname) else {
+                c.count("indexed_accessor_without_table_entry");
+                continue;
+            };
+            let mut n = 0u16;
+            while (k.new)().set_indexed(name, n).is_some() {
+                n += 1;
+            }
+            if n == 0 {
+                continue;
+            }
+            let stride = te.size / n;
+            c.count_n("indexed_accessor_slots", n as u64);
+            for i in 0..n {
+                c.eval();
+                c.nontrivial(vcommon::fnv(format!("{}|{}|{}|{}", k.exp, k.kind, name, i).as_bytes()));
+                let mut o = (k.new)();
+                o.dirty_reset();
+                o.set_indexed(name, i);
+                let dirty = dirty_bits(o.as_ref());
+                let (lo, hi) = (te.offset + stride * i, te.offset + stride * (i + 1));
+                let mut fail = |c: &mut Check, kind: &str, detail: String| {
+                    if reported.insert(format!("{}:{}:{}:{}", k.exp, k.kind, name, kind)) {
+                        c.fail(&format!("c13:{}:{}:{}:{}", k.exp, k.kind, name, kind), &detail, json!({"exp": k.exp, "kind": k.kind, "accessor": name, "index": i, "table": {"offset": te.offset, "size": te.size}}));
+                    }
+                };
+                if dirty.is_empty() || dirty.iter().any(|b| *b < lo || *b >= hi) {
+                    fail(&mut c, "indexed-dirty-bits", format!("index {} of {} touches bits {:?}; the table puts slot {} at [{}, {}) ({} at {:#x}, {} words, {} slots)", i, name, dirty, i, lo, hi, tname, te.offset, te.size, n));
+                }
+                if o.get_indexed(name, i) != Some(true) {
+                    fail(&mut c, "indexed-getter", format!("getter of index {} returns None after the setter", i));
+                }
+                for j in [i.wrapping_sub(1), i + 1, (i + 9) % n] {
+                    if j < n && j != i && o.get_indexed(name, j) == Some(true) {
+                        fail(&mut c, "indexed-getter-other-slot", format!("after setting index {} the getter of index {} returns a value", i, j));
+                    }
+                }
+                match o.carrier() {
+                    Err(e) => fail(&mut c, "write-failed", e),
+                    Ok(bytes) => match wire_fields(&u, carrier, &bytes) {
+                        Err(e) => fail(&mut c, "written-form-unreadable", e),
+                        Ok((_, wire, _)) => {
+                            let bits: Vec<u16> = wire.iter().map(|w| w.0).collect();
+                            if bits != dirty {
+                                fail(&mut c, "indexed-wire", format!("index {}: fields on the wire {:?} but dirty bits {:?}", i, bits, dirty));
+                            }
+                        }
+                    },
+                }
+            }
+        }
         // ---- (b) histories over a representative field set
         fields.sort_by_key(|f| f.offset);
         let mut rep: Vec<usize> = Vec::new();
